@@ -325,6 +325,7 @@ def rule_version_in_scope(ctx, rule_id="C14.version-in-scope", only_callees=None
     default = Evaluator(prog, allow_dyn=True).eval(prog.module("stix2.version").scope.lookup_local("DEFAULT_VERSION").value,
                                                     prog.module("stix2.version").scope)
     n = 0
+    ordinal = {}
     for fi in sorted(prog.functions.values(), key=lambda f: f.id):
         if "/test/" in fi.module.relpath or fi.module.relpath.startswith("stix2/test"):
             continue
@@ -344,7 +345,11 @@ def rule_version_in_scope(ctx, rule_id="C14.version-in-scope", only_callees=None
             if only_callees is not None and t.func.id not in only_callees:
                 continue
             n += 1
-            c = key(fi.module.relpath, fi.qualname, "%s:%s" % (short(call, 70), vp[0]))
+            # the construct is named by caller, callee and the ordinal of the call among the caller's calls to that callee
+            # (not by the call's text: local names and keyword order are free to change)
+            k_ = ordinal.get((fi.id, t.func.id), 0)
+            ordinal[(fi.id, t.func.id)] = k_ + 1
+            c = key(fi.module.relpath, fi.qualname, "->%s%s:%s" % (t.func.id, "#%d" % (k_ + 1) if k_ else "", vp[0]))
             b = cg.bind(call, t)
             e = b.params.get(vp[0])
             if e is None:
